@@ -7,6 +7,23 @@
 (*  {op:"neuter", xkey, pubversion, out}   {op:"fingerprint", xkey, out}   *)
 (***************************************************************************)
 EXTENDS BIP32, EvBase
+H31 == BPow2(31)
+Hd(k) == BAdd(B(k), H31)
+RECURSIVE TweaksOf(_, _, _)
+TweaksOf(node, path, j) ==
+  IF j > Len(path) THEN <<"ok", << >>>>
+  ELSE IF Hardened(path[j]) THEN <<"refused">>
+  ELSE LET I == HMAC(HF("sha512"), node.chain, SerP(PubPoint(node)) \o Ser32(path[j]))
+           c == CKDpubWith(node, path[j], I) IN
+       IF ~c.ok THEN <<"refused">>
+       ELSE LET rest == TweaksOf(c, path, j + 1) IN IF rest[1] = "refused" THEN rest ELSE <<"ok", <<Take(I, 32)>> \o rest[2]>>
+PrvVersions == {FromHex("0488ade4"), FromHex("049d7878"), FromHex("0295b005"), FromHex("04b2430c"), FromHex("02aa7a99"),
+                FromHex("04358394"), FromHex("044a4e28"), FromHex("024285b5"), FromHex("045f18bc"), FromHex("02575048")}
+\* BIP85: m/83696968'/app'/..., and for BIP39 sentences (app 39') the language numbers of the BIP's table
+Bip85Lang(l) == CASE l = "en" -> 0 [] l = "ja" -> 1 [] l = "ko" -> 2 [] l = "es" -> 3 [] l = "zh" -> 4 [] l = "zh_tw" -> 5 [] l = "fr" -> 6 [] l = "it" -> 7 [] l = "cs" -> 8 [] l = "pt" -> 9
+Bip85Path(e) == CASE e.app = "mnemonic" -> <<Hd(83696968), Hd(39), Hd(Bip85Lang(e.lang)), Hd(e.words), Hd(e.index)>>
+                  [] e.app = "wif" -> <<Hd(83696968), Hd(2), Hd(e.index)>>
+                  [] e.app = "xprv" -> <<Hd(83696968), Hd(32), Hd(e.index)>>
 
 Res(n) == IF n.ok THEN ToHex(Ser(n)) ELSE "refused"
 Expected(e) ==
@@ -21,6 +38,14 @@ Expected(e) ==
             IN Res(IF d.ok THEN [d EXCEPT !.version = Slip132(e.kind, node.version \in TestVersions, IsPrv(node))] ELSE d)
       [] e.op = "neuter" -> Res(Neuter(NodeOf(FromHex(e.xkey)), FromHex(e.pubversion)))
       [] e.op = "fingerprint" -> ToHex(Fingerprint(NodeOf(FromHex(e.xkey))))
+      \* the tweaks a public derivation adds step by step (BIP328 / BIP373 apply them to an aggregate key): IL of every unhardened step, refused at a hardened one
+      [] e.op = "tweaks" -> LET r == TweaksOf([ok |-> TRUE, version |-> FromHex("0488b21e"), depth |-> 0, fp |-> Zeros(4), index |-> Zeros(4), chain |-> FromHex(e.chain), key |-> FromHex(e.key)],
+                                                [j \in 1..Len(e.path) |-> N(e.path[j])], 1) IN
+                               IF r[1] = "refused" THEN <<"refused">> ELSE <<"ok", [j \in 1..Len(r[2]) |-> ToHex(r[2][j])]>>
+      \* the master key as an object: a version that is not a private one is refused
+      [] e.op = "master_obj" -> IF FromHex(e.version) \notin PrvVersions THEN "refused" ELSE Res(Master(FromHex(e.seed), FromHex(e.version)))
+      \* BIP85 applications: the entropy is that of the path the BIP gives the application (its own language numbers for 39')
+      [] e.op = "bip85" -> ToHex(SubSeq(HMAC(HF("sha512"), Utf8("bip-entropy-from-k"), Drop(Derive(NodeOf(FromHex(e.xkey)), Bip85Path(e)).key, 1)), 1, e.take))
       [] e.op = "hmac512" -> ToHex(HMAC(HF("sha512"), FromHex(e.key), FromHex(e.msg)))
 
 EventOK == i > 0 => Expected(Trace[i]) = Trace[i].out
